@@ -46,7 +46,7 @@ Variable ubis0 : list ubi.
 
 (* ================================================================ (2) model vs observation *)
 Section Model.
-Variable strict : bool.
+Variable cf : config.
 Variable pools0 : list (Z * Z).
 
 Definition init_state (i : init) : st :=
@@ -64,16 +64,16 @@ Definition reg_native (s : st) : Z := match aget native (s_reg s) with Some t =>
 Definition model_obs (s : st) (o : op) : st * obs :=
   match o with
   | OBlock dt =>
-      match block_parts s dt with
+      match block_parts cf s dt with
       | Ok (s1, s2, s3) => (s3, BObs 0 (nat_supply s1) (nat_supply s2) (s_psnap s3) (s_ysnap s3) (s_ubis s3) (zget 0 (s_pools s3)) (reg_native s3))
       | r => (s, BObs (res_of r) (nat_supply s) (nat_supply s) (s_psnap s) (s_ysnap s) (s_ubis s) (zget 0 (s_pools s)) (reg_native s))
       end
   | OParams _ _ _ | OHardcap _ | OFee _ _ =>
-      let r := step strict s o in let s' := step_total strict s o in (s', PObs (res_of r) (nat_supply s'))
+      let r := step cf s o in let s' := step_total cf s o in (s', PObs (res_of r) (nat_supply s'))
   | OUbiUpsert _ _ _ _ _ _ | OUbiRemove _ =>
-      let r := step strict s o in let s' := step_total strict s o in (s', UObs (res_of r) (nat_supply s') (s_ubis s'))
+      let r := step cf s o in let s' := step_total cf s o in (s', UObs (res_of r) (nat_supply s') (s_ubis s'))
   | _ =>
-      let r := step strict s o in let s' := step_total strict s o in let d := op_denom o in
+      let r := step cf s o in let s' := step_total cf s o in let d := op_denom o in
       (s', TObs (res_of r) (nat_supply s') (aget d (s_reg s')) (supply_of s' d))
   end.
 
